@@ -97,7 +97,78 @@ def impl_main(payload):
                 viol.append("after two phases serial evaluation reports %d evaluations, %d worker processes report %d"
                             % (fs.eval_count, c["procs"], fm.eval_count))
         results.append(dict(out=out, viol=viol))
-    return dict(results=results)
+    return dict(results=results, agraph=agraph_parallel_runs(payload.get("agraph_runs", 0), payload.get("seed", 0)))
+
+
+def agraph_parallel_runs(nruns, seed):
+    """real AGraph populations through serial and through worker-process evaluation: fresh random equations with constants
+    set by hand, offspring of mutation and crossover that inherited constants and whose stack was modified since the last
+    update (their derived state is pending when they are pickled for the worker), and already-evaluated individuals.  Every
+    slot must end up with the same stack, the same constants and the same fitness either way."""
+    import numpy as np
+    from bingo.evaluation.evaluation import Evaluation
+    from bingo.symbolic_regression import AGraphGenerator, ComponentGenerator, AGraphMutation, AGraphCrossover, \
+        ExplicitRegression, ExplicitTrainingData
+    out = dict(runs=0, slots=0, pending_with_constants=0, viol=[])
+    rng = random.Random(seed + 5)
+    for r in range(nruns):
+        s = rng.randrange(10 ** 6)
+        x = np.linspace(-1, 2, 12).reshape(-1, 1)
+        td = ExplicitTrainingData(x, 1.5 * x ** 2 - 0.7 * x + 0.3)
+
+        def build():
+            np.random.seed(s)
+            random.seed(s)
+            lr = random.Random(s)
+            cg = ComponentGenerator(1)
+            for o in ("+", "-", "*"):
+                cg.add_operator(o)
+            gen, mut, cx = AGraphGenerator(10, cg), AGraphMutation(cg), AGraphCrossover()
+
+            def parent():
+                p = gen()
+                n = p.get_number_local_optimization_params()
+                p.set_local_optimization_params([round(lr.uniform(-3, 3), 3) for _ in range(n)])
+                return p
+            pop = []
+            for j in range(8):
+                p = parent()
+                if j % 4 == 1:
+                    p = mut(p)
+                elif j % 4 == 2:
+                    p = cx(p, parent())[j % 2]
+                elif j % 4 == 3:
+                    p.fitness = 123.0
+                pop.append(p)
+            return pop
+        ps, pm = build(), build()
+        out["pending_with_constants"] += sum(1 for p in ps if p._modified and len(p._simplified_constants) > 0) \
+            if hasattr(ps[0], "_modified") else 0
+        fs, fm = ExplicitRegression(training_data=td), ExplicitRegression(training_data=td)
+        try:
+            Evaluation(fs)(ps)
+            Evaluation(fm, multiprocess=2)(pm)
+        except Exception as e:  # noqa
+            out["viol"].append("AGraph population seed %d: evaluation raised %r" % (s, e))
+            break
+        if fs.eval_count != fm.eval_count:
+            out["viol"].append("AGraph population seed %d: serial evaluation reports %d evaluations, 2 worker processes report %d"
+                               % (s, fs.eval_count, fm.eval_count))
+        for j, (a, b) in enumerate(zip(ps, pm)):
+            out["slots"] += 1
+            fa, fb = a.fitness, b.fitness
+            same_fit = fa == fb or (fa != fa and fb != fb)
+            if not np.array_equal(a.command_array, b.command_array) or tuple(a.constants) != tuple(b.constants) or not same_fit \
+                    or a.fit_set != b.fit_set:
+                out["viol"].append("AGraph population seed %d slot %d (%s): serial evaluation leaves constants %r fitness %r, evaluation "
+                                   "with 2 worker processes leaves constants %r fitness %r (stack %r)"
+                                   % (s, j, ["fresh", "mutated offspring", "crossover offspring", "already evaluated"][j % 4],
+                                      tuple(a.constants), fa, tuple(b.constants), fb, a.command_array.tolist()))
+                break
+        out["runs"] += 1
+        if out["viol"]:
+            break
+    return out
 
 
 def hash_seed_fits(tier, seed):
@@ -164,11 +235,12 @@ def check(rep, proof):
     n = 250 if rep.tier == "quick" else 4000
     cases = [c19.gen_case(rng, multi=True) for _ in range(n)]
     os.makedirs(os.path.join(vlib.VERIF, "work"), exist_ok=True)
-    rc, res, out, wall = vlib.run_impl("c17", dict(cases=cases), timeout=3400)
+    rc, res, out, wall = vlib.run_impl("c17", dict(cases=cases, seed=rep.seed, agraph_runs=8 if rep.tier == "quick" else 120), timeout=3400)
     if res is None:
         rep.violation("implementation harness crashed", dict(relation="corr_C17_evalphase", log=out[-3000:]), has_input=False)
         return
     results = res["results"]
+    agp = res.get("agraph") or dict(runs=0, slots=0, pending_with_constants=0, viol=[])
     fits = hash_seed_fits(rep.tier, rep.seed)
     oracle_bad = [(i, r["viol"]) for i, r in enumerate(results) if r["viol"]]
     pairs = [(c19.coq_case(c), r["out"]) for c, r in zip(cases, results)]
@@ -178,14 +250,18 @@ def check(rep, proof):
         distinct_nontrivial=len({repr(c) for c in cases if len(c["pop"]) >= 2}),
         rule="(a) the same population (0-9 individuals, mixed flags, redundant on/off) evaluated serially and with 1-3 worker "
              "processes whose completion order is scrambled by genome-dependent sleeps; slots, fitness values, flags and counts "
-             "compared with each other and with Model/EvalPhase.v; (b) SymbolicRegressor fits in fresh interpreter processes under 6 "
+             "compared with each other and with Model/EvalPhase.v; real AGraph populations (fresh, mutated and crossed-over offspring "
+             "with inherited constants and a pending update, already evaluated ones) evaluated serially and with 2 worker processes, "
+             "stack / constants / fitness / flag compared slot by slot; (b) SymbolicRegressor fits in fresh interpreter processes under 6 "
              "PYTHONHASHSEEDs per configuration - each process fits the same object twice and a fresh object once - best equation / "
              "fitness bytes / operator table compared within and across processes (test)",
         samples=[cases[0]] + fits["samples"],
         correspondence=dict(cases=len(cases), disagreements=len(bad)),
         hash_seed_test=dict(fits=fits["fits"], configurations=fits["configs"], violations=len(fits["viol"]),
                             note="test, not a theorem"),
-        oracle_violations=len(oracle_bad) + len(fits["viol"]),
+        agraph_serial_vs_worker_processes=dict(runs=agp["runs"], slots=agp["slots"], violations=len(agp["viol"]),
+                                               offspring_pickled_with_pending_update_and_constants=agp["pending_with_constants"]),
+        oracle_violations=len(oracle_bad) + len(fits["viol"]) + len(agp["viol"]),
     )
     rep.assumptions += [
         "clause (a): pickling = independent copy; results consumed in submission order",
@@ -196,6 +272,9 @@ def check(rep, proof):
     if oracle_bad:
         i, v = oracle_bad[0]
         rep.violation("; ".join(v[:3]), dict(case=cases[i], observed=results[i]["out"], oracle=v))
+    elif agp["viol"]:
+        rep.violation(agp["viol"][0], dict(kind="AGraph population, serial against worker-process evaluation", detail=agp["viol"][:3],
+                                           how="tools/props/c17.py agraph_parallel_runs (seed %d)" % rep.seed))
     elif fits["viol"]:
         rep.violation(fits["viol"][0], dict(kind="hash-seed subprocess fits", detail=fits["viol"][:4],
                                             how="tools/props/c17.py hash_seed_fits"))
